@@ -1,10 +1,136 @@
-import AcraModel.Basic.Bytes
-/-! Driver ops for C17. -/
+import AcraModel.KeystoreSec.Concurrent
+/-!
+Driver ops for C17: replay an observed global order of back-end calls through the model.
+
+`C17.replay <nrings> <ring>… <nthreads> <thread>… <sched>`
+* ring   = `<keys>;<current>` with keys = comma-joined `seq.state.data` or `-`
+* thread = `<path>|<snapshot ring>|<ops joined by +>` (ops: `A<data>` addKey, `C<seq>` setCurrent,
+  `S<seq>.<state>` setState, `D<seq>` destroy, `R` re-read, `I<ring>` import; `-` = no ops)
+* sched  = comma-joined thread ids, one per observed back-end call (`-` = empty)
+
+Result: `T <calls joined by />  final <ring>…  res <per-thread outcomes>`; a scheduled thread that
+cannot make a call prints `<tid>BLOCKED` and stops the replay.
+-/
 namespace Driver.C17
-open AcraModel
+open AcraModel AcraModel.KeystoreSec.Conc
+
+def parseInt (s : String) : Option Int :=
+  if s.startsWith "-" then (s.drop 1).toNat?.map fun n => -(n : Int) else s.toNat?.map fun n => (n : Int)
+
+def parseKey (s : String) : Option Key :=
+  match s.splitOn "." with
+  | [a, b, c] => do
+    let a ← parseInt a; let b ← b.toNat?; let c ← c.toNat?
+    pure ⟨a, b, c⟩
+  | _ => none
+
+def parseRing (s : String) : Option Ring :=
+  match s.splitOn ";" with
+  | [ks, c] => do
+    let c ← parseInt c
+    let keys ← if ks = "-" then some [] else (ks.splitOn ",").mapM parseKey
+    pure ⟨keys, c⟩
+  | _ => none
+
+def parseOp (s : String) : Option Op :=
+  if s = "R" then some .refresh
+  else
+    let body := (s.drop 1).toString
+    match s.take 1 |>.toString with
+    | "A" => body.toNat?.map .addKey
+    | "C" => (parseInt body).map .setCurrent
+    | "S" => match body.splitOn "." with
+      | [a, b] => do let a ← parseInt a; let b ← b.toNat?; pure (.setState a b)
+      | _ => none
+    | "D" => (parseInt body).map .destroy
+    | "I" => (parseRing body).map fun r => .importKeys r.keys r.current
+    | _ => none
+
+def parseThread (s : String) : Option Handle :=
+  match s.splitOn "|" with
+  | [p, snap, ops] => do
+    let p ← p.toNat?
+    let snap ← parseRing snap
+    let ops ← if ops = "-" then some [] else (ops.splitOn "+").mapM parseOp
+    pure ⟨p, snap, [], ops, [], .idle⟩
+  | _ => none
+
+def showKey (k : Key) : String := s!"{k.seq}.{k.state}.{k.data}"
+def showRing (r : Ring) : String :=
+  (if r.keys.isEmpty then "-" else ",".intercalate (r.keys.map showKey)) ++ ";" ++ toString r.current
+
+def showCall (i : Nat) : Call → String
+  | .lock => s!"{i}L"
+  | .unlock => s!"{i}U"
+  | .rlock => s!"{i}RL"
+  | .runlock => s!"{i}RU"
+  | .get p v => s!"{i}G{p}={showRing v}"
+  | .put p v ok => s!"{i}P{p}={showRing v}=" ++ (if ok then "ok" else "fail")
+  | .rename p => s!"{i}N{p}"
+  | .none => s!"{i}BLOCKED"
+
+/-- advance thread `i` until it makes a back-end call (internal steps: operations rejected before
+locking); `none` when it cannot make one (blocked or finished) -/
+def stepToCall (fuel : Nat) (s : St) (i : Nat) : St × Call :=
+  match fuel with
+  | 0 => (s, .none)
+  | fuel + 1 =>
+    let (s', c) := stepCall s i
+    match c with
+    | .none =>
+      -- an internal step finished an operation (todo got shorter): keep going; otherwise blocked/finished
+      if ((s'.h i).todo.length < (s.h i).todo.length) then stepToCall fuel s' i else (s, .none)
+    | c => (s', c)
+
+def replayLoop (s : St) : List Nat → List String → St × List String
+  | [], acc => (s, acc.reverse)
+  | i :: rest, acc =>
+    let (s', c) := stepToCall 64 s i
+    match c with
+    | .none => (s', (showCall i .none :: acc).reverse)
+    | c => replayLoop s' rest (showCall i c :: acc)
+
+/-- internal steps only (operations rejected before locking), never a back-end call -/
+def internalOnly : Nat → St → Nat → St
+  | 0, s, _ => s
+  | fuel + 1, s, i =>
+    let (s', c) := stepCall s i
+    if c == .none ∧ (s'.h i).todo.length < (s.h i).todo.length then internalOnly fuel s' i else s
+
+/-- after the schedule: let every thread finish the operations it can finish without a call -/
+def flushInternal (s : St) (n : Nat) : St := (List.range n).foldl (internalOnly 64) s
+
+def showRes (hd : Handle) : String :=
+  if hd.done.isEmpty then "-" else String.join (hd.done.map fun (_, r) => if r.isSome then "1" else "0")
+
+def takeN {α} (n : Nat) (xs : List α) : Option (List α × List α) :=
+  if xs.length < n then none else some (xs.take n, xs.drop n)
 
 def handle (op : String) (args : List String) : Option String :=
   match op, args with
+  | "replay", nr :: rest => do
+    let nr ← nr.toNat?
+    let (rs, rest) ← takeN nr rest
+    let rings ← rs.mapM parseRing
+    match rest with
+    | nt :: rest => do
+      let nt ← nt.toNat?
+      let (ts, rest) ← takeN nt rest
+      let threads ← ts.mapM parseThread
+      match rest with
+      | [sched] => do
+        let sched ← if sched = "-" then some [] else (sched.splitOn ",").mapM String.toNat?
+        let dummy : Handle := ⟨0, ⟨[], noKey⟩, [], [], [], .idle⟩
+        let s0 : St := { cur := fun p => rings.getD p ⟨[], noKey⟩, new := fun _ => none, writer := none, readers := [],
+                         h := fun i => threads.getD i dummy, commits := [] }
+        let (s1, calls) := replayLoop s0 sched []
+        let s2 := flushInternal s1 nt
+        let callsS := if calls.isEmpty then "-" else "/".intercalate calls
+        let finals := " ".intercalate ((List.range nr).map fun p => showRing (s2.cur p))
+        let res := " ".intercalate ((List.range nt).map fun i => showRes (s2.h i))
+        pure s!"T {callsS} final {finals} res {res}"
+      | _ => none
+    | _ => none
   | _, _ => none
 
 end Driver.C17
